@@ -3,6 +3,7 @@ package aead
 import (
 	"bytes"
 	"fmt"
+	"math/big"
 	"math/rand/v2"
 	"testing"
 
@@ -241,7 +242,7 @@ func cat(bs ...[]byte) []byte {
 func TestC02(t *testing.T) {
 	m := mon.New(t, "C02")
 	defer m.Done()
-	m.Rule("fault enumeration: for each kind (chacha, xchacha) and payload length in {0,1,8,15,16,17,32,33,63..65,127..129,192,193,255..257,320,321,511..513,1024,4096} a message sealed by the executable spec is modified by the harness in exactly one way and presented to Open on every path (asm, generic; purego build): every single bit of ct‖tag (quick tier: every bit up to 1 KiB sealed size, 2000 positions incl. both ends above), every bit of nonce, key and ad, truncation/extension by 1..32 at either end (zero and random bytes), bytes removed/inserted in front of the tag, ad shortened/zero-extended, every prefix shorter than a tag, swapped ad/ct, random multi-byte edits; the same for secretbox.Open and box.Open/OpenAfterPrecomputation/OpenAnonymous (Curve25519's ignored key bits excluded). Oracle: by construction every presented tuple differs from the sealed one => must be rejected; leak clause: dst window pre-filled with the complement of the would-be plaintext (ref key stream), a run of >= 8 would-be plaintext bytes after a failed Open is a violation. distinct = (path, kind, tamper class, asm length branch, dst mode)")
+	m.Rule("fault enumeration: for each kind (chacha, xchacha) and payload length in {0,1,8,15,16,17,32,33,63..65,127..129,192,193,255..257,320,321,511..513,1024,4096} a message sealed by the executable spec is modified by the harness in exactly one way and presented to Open on every path (asm, generic; purego build): every single bit of ct‖tag (quick tier: every bit up to 1 KiB sealed size, 2000 positions incl. both ends above), every bit of nonce, key and ad, truncation/extension by 1..32 at either end (zero and random bytes), bytes removed/inserted in front of the tag, ad shortened/zero-extended, every prefix shorter than a tag, swapped ad/ct, random multi-byte edits; additionally messages whose true final Poly1305 accumulator is constructed at the edges of the final reduction / tag addition (h in 0..4, p-1, p-5, carry into 2^128, limb boundaries) with every tag bit and the arithmetic neighbours of the tag (+-1, +-5, +-2^64, +-(2^64+-5), +-2^32, +-2^96); the same for secretbox.Open and box.Open/OpenAfterPrecomputation/OpenAnonymous (Curve25519's ignored key bits excluded). Oracle: by construction every presented tuple differs from the sealed one => must be rejected; leak clause: dst window pre-filled with the complement of the would-be plaintext (ref key stream), a run of >= 8 would-be plaintext bytes after a failed Open is a violation. distinct = (path, kind, tamper class, asm length branch, dst mode)")
 	m.Assume("the sealed messages come from h/ref/aead8439 (AEAD) and are confirmed authentic by an unmodified Open on each path before tampering; NaCl boxes are sealed by the package itself and cross-checked against libsodium " + sodiumaead.Version())
 	m.Assume("Curve25519 ignores bit 255 of a public key and clamps bits 0,1,2,254,255 of a private key: flips of those bits give an equivalent key and are not presented as modifications")
 
@@ -257,7 +258,9 @@ func TestC02(t *testing.T) {
 	nAEAD := 2 * len(c02Lens) * groups
 	nSB := len(c02Lens)
 	nBox := 3 * len(c02BoxLens)
-	total := nAEAD + nSB + nBox
+	conTargets := c02ConTargets()
+	nCon := 2 * len(c02ConLens) * len(conTargets)
+	total := nAEAD + nSB + nBox + nCon
 
 	m.Cases("units", total, func(i int64, r *rand.Rand) {
 		u := int(i)
@@ -268,9 +271,14 @@ func TestC02(t *testing.T) {
 			c02AEADUnit(m, r, ps, kind, li, u%groups, allBits, ctA, adA, dstA)
 		case u < nAEAD+nSB:
 			c02SecretboxUnit(m, r, c02Lens[u-nAEAD], allBits)
-		default:
+		case u < nAEAD+nSB+nBox:
 			v := u - nAEAD - nSB
 			c02BoxUnit(m, r, v/len(c02BoxLens), c02BoxLens[v%len(c02BoxLens)])
+		default:
+			v := u - nAEAD - nSB - nBox
+			ti := v % len(conTargets)
+			v /= len(conTargets)
+			c02ConstructedUnit(m, r, ps, v/len(c02ConLens), c02ConLens[v%len(c02ConLens)], conTargets[ti], ctA, adA, dstA)
 		}
 	})
 	for _, p := range []string{"asm", "generic", "purego"} {
@@ -281,6 +289,10 @@ func TestC02(t *testing.T) {
 		m.Gate(p+"_nonce-bit", (96+192)*len(c02Lens), "every nonce bit, every message, on the "+p+" path")
 		m.Gate(p+"_trunc", 2*len(c02Lens)*16, "truncations on the "+p+" path")
 		m.Gate(p+"_ext", 2*len(c02Lens)*32, "extensions on the "+p+" path")
+	}
+	for _, p := range []string{"asm", "generic", "purego"} {
+		m.Gate(p+"_constructed_authentic_accepted", nCon*9/10, "authentic messages with a constructed final Poly1305 accumulator accepted before tampering on the "+p+" path")
+		m.Gate(p+"_tag-arith", nCon*9/10*len(c02TagDeltas()), "arithmetic neighbours of the tag of constructed messages presented on the "+p+" path")
 	}
 	m.Gate("secretbox_box-bit", 2*8*(16+129), "secretbox box bits flipped (both builds)")
 	m.Gate("secretbox_key-bit", 2*256*len(c02Lens), "secretbox key bits flipped")
@@ -578,5 +590,95 @@ func c02BoxUnit(m *mon.M, r *rand.Rand, fn, n int) {
 	}
 	for k := 0; k < 16; k++ {
 		try("short-input", fmt.Sprintf("only the first %d bytes", k), sealed[:k], &nonce, pub0, priv0)
+	}
+}
+
+// ---- constructed accumulator messages (shared with C01) ----
+
+var c02ConLens = []int{16, 64, 129, 192, 193, 320, 321, 513}
+
+func c02ConTargets() []polyTarget {
+	var out []polyTarget
+	for _, t := range polyTargets() {
+		switch {
+		case t.fam == "band[p,2^130)",
+			t.name == "h=p-1", t.name == "h=p-5",
+			t.name == "h=0*2^128+(2^128-s+0)", t.name == "h=3*2^128+(2^128-s+1)",
+			t.name == "h=2*2^128+2^128-5+4", t.name == "h=2^64-5":
+			out = append(out, t)
+		}
+	}
+	return out
+}
+
+// c02TagDeltas are the tag offsets a faulty final reduction / tag addition
+// would produce: +-p mod 2^128 = -+5 (missing or extra subtraction of p), a
+// lost or spurious borrow/carry between the 64-bit limbs (+-2^64, +-(2^64+-5)),
+// +-1, and limb-internal +-2^32, +-2^96.
+func c02TagDeltas() []*big.Int {
+	var out []*big.Int
+	add := func(v *big.Int) {
+		out = append(out, v, new(big.Int).Neg(v))
+	}
+	add(big.NewInt(1))
+	add(big.NewInt(5))
+	add(new(big.Int).Set(big2p64))
+	add(new(big.Int).Add(big2p64, big.NewInt(5)))
+	add(new(big.Int).Sub(big2p64, big.NewInt(5)))
+	add(new(big.Int).Lsh(big.NewInt(1), 32))
+	add(new(big.Int).Lsh(big.NewInt(1), 96))
+	return out
+}
+
+func leAdd128(tag []byte, delta *big.Int) []byte {
+	be := make([]byte, 16)
+	for i := range tag {
+		be[15-i] = tag[i]
+	}
+	v := new(big.Int).SetBytes(be)
+	v.Add(v, delta)
+	v.Mod(v, big2p128)
+	out := make([]byte, 16)
+	b := v.Bytes()
+	for i := range b {
+		out[i] = b[len(b)-1-i]
+	}
+	return out
+}
+
+// c02ConstructedUnit: a message whose true final Poly1305 accumulator sits at
+// an edge of the final reduction / tag addition. It must be accepted unmodified
+// on every path (otherwise the experiment is reported inconclusive: acceptance
+// is C01's clause) and every tag bit flip and every arithmetic neighbour of its
+// tag must be rejected.
+func c02ConstructedUnit(m *mon.M, r *rand.Rand, ps []string, kind, n int, tgt polyTarget, ctA, adA, dstA *guard.Arena) {
+	adlen := []int{0, 13, 16}[(n+kind)%3]
+	c, ok := constructAEAD(r, kind, n, adlen, tgt)
+	if !ok {
+		m.Count("constructed_unsolved", 1)
+		return
+	}
+	x := &c02Exp{m: m, kind: kind, ctA: ctA, adA: adA, dstA: dstA, r: r, ps: ps}
+	x.key, x.nonce, x.ad, x.pt = c.key, c.nonce, c.ad, c.pt
+	x.seal = aead8439.SealN(x.key, x.nonce, x.pt, x.ad)
+	x.ks = aead8439.PayloadKeystream(x.key, x.nonce, n+2*c02MaxExt+16)
+	a := newAEAD(kind, x.key)
+	for _, path := range ps {
+		var out []byte
+		var err error
+		onPath(path, func() { out, err = a.Open(nil, x.nonce, x.seal, x.ad) })
+		if err != nil || !bytes.Equal(out, x.pt) {
+			m.Inconclusive(fmt.Sprintf("baseline: %s Open rejects the spec-sealed message with constructed accumulator %s (%s, len %d) on %s; key=%s nonce=%s ad=%s pt=%s (acceptance is C01's clause; the tamper results of this unit on this path are vacuous)",
+				kindName(kind), tgt.name, tgt.fam, n, path, mon.FullHex(x.key), mon.FullHex(x.nonce), mon.FullHex(x.ad), mon.FullHex(x.pt)))
+			continue
+		}
+		m.Count(path+"_constructed_authentic_accepted", 1)
+	}
+	ct, tag := x.seal[:n], x.seal[n:]
+	for b := 0; b < 128; b++ {
+		x.try("tag-bit", fmt.Sprintf("constructed %s: tag bit %d flipped", tgt.name, b), x.key, x.nonce, cat(ct, flipBit(tag, b)), x.ad)
+	}
+	for _, d := range c02TagDeltas() {
+		x.try("tag-arith", fmt.Sprintf("constructed %s: tag %+d (mod 2^128)", tgt.name, d), x.key, x.nonce, cat(ct, leAdd128(tag, d)), x.ad)
 	}
 }
